@@ -79,6 +79,17 @@ CHECKS = {
              "on or off).",
         design_ref="DESIGN.md section 4, C01",
         note=TRUST_A),
+    "C14": dict(
+        engine="simomp",
+        technique="deterministic simulation: sparse conversion/overlap kernels under seeded team schedules with "
+                  "garbage-filled np.empty buffers and short call histories on reused cache objects "
+                  "(overlaps_linear / overlaps_matrix); oracle = numpy.nonzero / Counter reference models",
+        text="Round trips (from_data_mask / from_data_cut / to_dense, incl. dirty out= buffers), sort() of shuffled "
+             "frames and sequences of overlap calls whose answers are consumed after the last call are run on the "
+             "instrumented module; mask_to_coo and tosparse_* also at kernel level in strict mode under team "
+             "schedules. Inputs are sampled.",
+        design_ref="DESIGN.md section 4, C14",
+        note=TRUST_A),
 }
 
 NOT_APPLICABLE = {
